@@ -172,7 +172,10 @@ def tlc(module, cfg=None, workdir=None, workers=None, extra=(), env=None, timeou
     else:
         if own:
             shutil.rmtree(workdir, ignore_errors=True)
-        raise MachineryError("TLC failed on %s (rc=%s):\n%s" % (module, p.returncode, _tail(p.stdout, 60)))
+        lines_ = p.stdout.split("\n")
+        i0 = next((i for i, l in enumerate(lines_) if l.startswith("Error:")), 0)
+        first = lines_[i0:i0 + 6]
+        raise MachineryError("TLC failed on %s (rc=%s): %s\n%s" % (module, p.returncode, " | ".join(first), _tail(p.stdout, 60)))
     if own:
         shutil.rmtree(workdir, ignore_errors=True)
     return r
